@@ -70,8 +70,8 @@ def extOk (c : Char) : Bool := c != '.' && c != ' ' && c != ':' && c != '=' && c
 def startOkNoSep (c : Char) : Bool := c != ':' && c != '|' && c != ' ' && c != '=' && c != '-'
 /-- `[^:=-]` -/
 def midOkNoSep (c : Char) : Bool := c != ':' && c != '=' && c != '-'
-/-- `[^:\ ]` -/
-def lastOkNoSep (c : Char) : Bool := c != ':' && c != ' '
+/-- `[^:\ ]` — the excluded characters are read from the pattern (a repair adds `=` and `-`). -/
+def lastOkNoSep (c : Char) : Bool := !Generated.Grep.noSepLastExcluded.toList.contains c
 
 def digitsVal (ds : List Char) : Nat := ds.foldl (fun acc c => 10 * acc + (c.toNat - 48)) 0
 
@@ -334,7 +334,8 @@ inductive Panic where
   | sliceOutOfRange      -- `&line[a..b]` with `b > len` or `a > b`
   | sliceNotCharBoundary -- offset inside a UTF-8 sequence
   | lineNumberZero       -- `n - 1` with `n = 0` (overflow checks on)
-  | prefixMisaligned     -- `get_code_style_sections` cut the raw line at the wrong place
+  | prefixMisaligned     -- `get_code_style_sections` cut the raw line at the wrong place: the sections do not
+                         -- spell the code and superimposing them panics (unless the mis-cut text happens to agree)
   deriving DecidableEq, Repr
 
 def tab : UInt8 := 9
@@ -365,6 +366,12 @@ def expandTabs (w : Nat) (code : Bytes) (subs : List (Nat × Nat)) : Bytes × Li
   let shift := code'.length - code.length
   (code', subs.map fun (a, b) => (a + shift, b + shift))
 
+/-- The guard of the repaired `make_style_sections` (notes/fix-grep-submatch-range.diff): a
+submatch that is not a substring of the line behind the previous one is skipped. -/
+def spanSkipped (line : Bytes) (curr a b : Nat) : Bool :=
+  Generated.Grep.fixSectionsGuard &&
+    (decide (a < curr) || decide (b < a) || !isBoundary line a || !isBoundary line b)
+
 /-- The loop of `make_style_sections`; `true` marks `match_style`. -/
 def sectionsFrom (line : Bytes) : Nat → List (Nat × Nat) → Except Panic (List (Bool × Bytes))
   | curr, [] =>
@@ -374,6 +381,7 @@ def sectionsFrom (line : Bytes) : Nat → List (Nat × Nat) → Except Panic (Li
       | .error e => .error e
     else .ok []
   | curr, (a, b) :: rest =>
+    if spanSkipped line curr a b then sectionsFrom line curr rest else
     match (if a > curr then (slice line curr a).map fun s => [(false, s)] else .ok []) with
     | .error e => .error e
     | .ok pre =>
@@ -398,7 +406,8 @@ structure Hit where
   num : Option Nat
   /-- The raw line's `path sep digits sep` prefix has the length `get_code_style_sections`
   recomputes from `path` and the parsed number (false for `007`, for numbers over
-  `usize::MAX`, for a TAB in the path). Only consulted for text lines (`subs = none`). -/
+  `usize::MAX`, for a TAB in the path that tab expansion widens). Only consulted for text
+  match lines (`subs = none`). -/
   prefixOk : Bool
   code : Bytes
   subs : Option (List (Nat × Nat))
@@ -432,9 +441,9 @@ inductive Row where
   the styled sections of the code, `true` = match-word style. `trail`: a space follows. -/
   | code (path : Option (List Char)) (num : Option Nat) (kind : Kind)
       (secs : List (Bool × Bytes)) (trail : Bool)
-  /-- classic style: a `=` line rendered like a hunk header. `num` is what is handed to the
-  hunk-header writer (`unwrap_or(0)`). -/
-  | funcHeader (path : List Char) (num : Nat) (text : Bytes)
+  /-- classic style: a `=` line rendered like a hunk header. `num` is the number the
+  hunk-header writer is asked to show (`unwrap_or(0)` in the unrepaired code). -/
+  | funcHeader (path : List Char) (num : Option Nat) (text : Bytes)
   deriving Repr
 
 /-- `(kind, path, line_number)` of `State::Grep`; `none` = `State::Unknown`. -/
@@ -444,14 +453,17 @@ abbrev St := Option (Kind × List Char × Option Nat)
 def lineNumberJump (prev cur : Option Nat) : Except Panic Bool :=
   match cur with
   | none => .ok false
-  | some 0 => .error .lineNumberZero
+  | some 0 =>
+    -- `n - 1`; the repaired code saturates: `previous_line < Some(0)`
+    if Generated.Grep.fixLineNumberZero then .ok prev.isNone else .error .lineNumberZero
   | some (n + 1) =>
     match prev with
     | none => .ok true
     | some p => .ok (decide (p < n))
 
-/-- Sections of the code of a hit: `(sections, trailing space in ripgrep style)`. -/
-def codeSections (cfg : Cfg) (h : Hit) : Except Panic (List (Bool × Bytes) × Bool) :=
+/-- Sections of the code of a hit shown in output style `style`:
+`(sections, trailing space in ripgrep style)`. -/
+def codeSections (cfg : Cfg) (style : GrepType) (h : Hit) : Except Panic (List (Bool × Bytes) × Bool) :=
   match h.kind, h.subs with
   | .match_, some subs =>
     let (code', subs') := expandTabs cfg.tabWidth h.code subs
@@ -459,9 +471,15 @@ def codeSections (cfg : Cfg) (h : Hit) : Except Panic (List (Bool × Bytes) × B
     | .error e => .error e
     | .ok secs => .ok (secs, false)
   | .match_, none =>
+    -- sections come from the raw line (`get_code_style_sections`); when it is cut at the
+    -- wrong place they spell something else than the code and superimposing them panics;
+    -- only the ripgrep style paints nothing at all for an empty code
     let code' := expandB cfg.tabWidth h.code
-    if code'.isEmpty then .ok ([], false)
-    else if h.prefixOk then .ok ([(false, code')], false)
+    if h.prefixOk then .ok (if code'.isEmpty then [] else [(false, code')], false)
+    else if Generated.Grep.fixPrefixCheck then
+      -- repaired: sections that do not spell the code are dropped for the plain match-line style
+      .ok (if code'.isEmpty then [] else [(false, code')], true)
+    else if style = .ripgrep && code'.isEmpty then .ok ([], false)
     else .error .prefixMisaligned
   | _, _ =>
     let code' := expandB cfg.tabWidth h.code
@@ -487,17 +505,23 @@ def stepHit (cfg : Cfg) (st : St) (h : Hit) : Except Panic (St × List Row) :=
       | .ripgrep =>
         let hdr := if newPath then (if firstPath then [] else [Row.blank]) ++ [Row.header h.path] else []
         let sp := if newSection then [Row.sep] else []
-        match codeSections cfg h with
+        if Generated.Grep.fixEmptyRow && h.code.isEmpty && h.num.isNone then
+          -- repaired: an empty line is written (before any section is computed)
+          .ok (st', hdr ++ sp ++ [Row.code none none h.kind [] false])
+        else
+        match codeSections cfg .ripgrep h with
         | .error e => .error e
         | .ok (secs, trail) =>
-          -- nothing at all is written for an empty code without a line number
+          -- unrepaired: nothing at all is written for an empty code without a line number
           let row := if h.code.isEmpty && h.num.isNone then [] else [Row.code none h.num h.kind secs trail]
           .ok (st', hdr ++ sp ++ row)
       | .classic =>
         if h.kind = .contextHeader && cfg.headerAsHunkHeader then
-          .ok (st', [Row.funcHeader h.path (h.num.getD 0) (expandB cfg.tabWidth h.code)])
+          .ok (st', [Row.funcHeader h.path
+                      (if Generated.Grep.fixHeaderNumber then h.num else some (h.num.getD 0))
+                      (expandB cfg.tabWidth h.code)])
         else
-          match codeSections cfg h with
+          match codeSections cfg .classic h with
           | .error e => .error e
           | .ok (secs, _) => .ok (st', [Row.code (some h.path) h.num h.kind secs false])
 
@@ -531,7 +555,7 @@ def attachFrom : Option (List Char) → List Row → List (Option (List Char) ×
     | .header p => attachFrom (some p) rest
     | .code (some p) n _ secs _ => (some p, n, secsText secs) :: attachFrom cur rest
     | .code none n _ secs _ => (cur, n, secsText secs) :: attachFrom cur rest
-    | .funcHeader p n t => (some p, some n, t) :: attachFrom cur rest
+    | .funcHeader p n t => (some p, n, t) :: attachFrom cur rest
     | _ => attachFrom cur rest
 
 def attach (rows : List Row) : List (Option (List Char) × Option Nat × Bytes) := attachFrom none rows
@@ -548,6 +572,14 @@ def pinnedPatternHashes : List (String × String) :=
    ("WithFileExtension", "27afac0fae0cbe856aa4231130786b12eff738832e98c88b0f1eab32945f7d8b"),
    ("WithFileExtensionNoSpaces", "4d4d51a9907d3a54af21668d4ab8e09ef9db3d510c03fbd5060ff81ee9458fca"),
    ("WithoutSeparatorCharacters", "d5f6c3d8363228b4ab30ed7b7fd7a6059c414adcc174b811a309e3d6acae681d")]
+
+/-- The same with the repaired last character class of the separator-free path
+(`[^:\ =-]`, notes/fix-grep-noext-path-class.diff). -/
+def pinnedPatternHashesRepaired : List (String × String) :=
+  pinnedPatternHashes.map fun p =>
+    if p.1 = "WithoutSeparatorCharacters" then
+      (p.1, "3db9c68fff06f6b2701fc2294939b54138566e26295e7e6fe9badb7c4da52b6c")
+    else p
 
 def isSepChar (c : Char) : Bool := c == ':' || c == '-' || c == '='
 
